@@ -451,8 +451,13 @@ func (c *SpecCtx) unop(x *SExpr) Value {
 		}
 		return c.e.load(c.st, p)
 	case "&":
-		// &x where x evaluates through a pointer: only &result-like uses; not supported generally
-		specFail("address-of is not supported in specs: %s", x)
+		// &x.f where x.f is a struct-typed field reached through a pointer: the interior pointer
+		if loc := c.locOf(x.Args[0]); loc != nil {
+			if _, isStruct := loc.pointee().Underlying().(*types.Struct); isStruct {
+				return loc
+			}
+		}
+		specFail("address-of is only supported for struct-typed fields in specs: %s", x)
 	}
 	specFail("unary %s", x.Name)
 	return nil
